@@ -34,6 +34,7 @@ import ZygoVerif.Proofs.GenBalanced
 import ZygoVerif.Proofs.GenBalancedAll
 import ZygoVerif.Proofs.VMRest
 import ZygoVerif.Proofs.VMRefine
+import ZygoVerif.Proofs.RunPrim
 import ZygoVerif.Generated.InstrSet
 namespace ZygoVerif.C04
 open ZygoVerif.Bal ZygoVerif.VM ZygoVerif.Core
@@ -513,14 +514,79 @@ theorem exec_refines_partial (i : Instr)
       | _ => True) : Refine.StepRefines i :=
   Refine.exec_refines_partial i h
 
+/-! ## The calling contract on the VM model (refinement across nested runs) -/
+
+open ZygoVerif.RunInv in
+/-- **calling_contract** (`RunInv.allSpec'`, Proofs/RunCall2.lean + RunPrim.lean) — by induction on
+the fuel over ALL thirteen functions of the VM's mutual block, from any state that satisfies the
+table invariant `RunInv.WF` (every function object of index ≥ 2 — templates, closures, the
+helpers of `EvalCallExpression`/`Force` — is a VERIFIED function with generated-code side
+conditions; every stored value contains no stack-mark and only ids of such functions; the
+expressions of lazy arguments are in the covered grammar), whenever the function returns normally:
+* `exec` of ANY instruction of a `Running` loop (`RunInv.Running`: the stack of activations — the
+  top one described by the checker's invariant `Bal.Inv` at its pc, every suspended caller by
+  `Bal.Inv` of the state it resumes in, the bottom one on the `Base` the loop started on) leaves
+  the loop `Running` — `callExpr` of a compiled function pushes an activation entered with exactly
+  its formals' worth of operands, `ret` pops one and resumes the caller at the caller's depths
+  with ONE value pushed — or `Finished`;
+* `runLoop` ends `Finished`: one value on the base data, the base scope stack (as a list), the base
+  address stack; `run` returns that value and leaves the base stacks;
+* `evalCallExpr`, `builtin` (incl. `apply`, `map`, `force`, `substitute`), `applyFn`, `mapArr`,
+  `mapList`, `forceLazy` leave data (as the checker sees it), scope stack, address stack, current
+  function, pc and the set-aside stacks EXACTLY as they were and return a storable value;
+  `callUser` pops its operands and pushes one value; `prepareArgs` pushes one value per operand;
+* the tables only grow and `WF` holds again — compiling at run time only adds verified functions
+  (`RunInv.wf_runGen`: `gen_balanced` for the whole grammar + `GenCodeOK`).
+This is the refinement `VM.exec ⊑ Bal.CStep` across nested runs (`ExecRefines` for `callArr`,
+`callExpr`, `ret` included), for normal returns. -/
+theorem calling_contract : ∀ n, AllSpec n := allSpec'
+
+open ZygoVerif.RunInv in
+/-- Calling a function value from any well-formed state (`Apply`, and through it `map`): the
+callee runs to its `ret` and everything the caller had — data stack, scopes, return addresses,
+set-aside stacks — is as before; the result is a storable value. -/
+theorem apply_leaves_nothing_behind (n : Nat) (f : Val) (args : List Val) (s s' : St) (v : Val) (hw : WF s)
+    (hpc : s.pc = -1) (hf : vok s.fns.length f = true) (ha : ∀ a ∈ args, vok s.fns.length a = true)
+    (h : (applyFn n f args).run s = (.ok v, s')) :
+    s'.data.map Refine.cellOf = s.data.map Refine.cellOf ∧ s'.linear = s.linear ∧ s'.addr = s.addr ∧
+      s'.suspended = s.suspended ∧ WF s' := by
+  obtain ⟨hk, _⟩ := (allSpec' n).apply f args s s' v hw hpc hf ha h
+  exact ⟨hk.same.data, hk.same.linear, hk.same.addr, hk.same.susp, hk.wf⟩
+
+open ZygoVerif.RunInv in
+/-- Evaluating an operand (`EvalCallExpression`: compile at run time, run the helper in a nested
+`Run`, restore) leaves nothing behind. -/
+theorem operand_leaves_nothing_behind (n : Nat) (e : Expr) (s s' : St) (v : Val) (hw : WF s) (hok : okL e = true)
+    (h : (evalCallExpr n e).run s = (.ok v, s')) :
+    s'.data.map Refine.cellOf = s.data.map Refine.cellOf ∧ s'.linear = s.linear ∧ s'.addr = s.addr ∧
+      s'.curfunc = s.curfunc ∧ s'.pc = s.pc ∧ s'.suspended = s.suspended ∧ WF s' := by
+  obtain ⟨hk, _⟩ := (allSpec' n).eval e s s' v hw hok h
+  exact ⟨hk.same.data, hk.same.linear, hk.same.addr, hk.same.cur, hk.same.pc, hk.same.susp, hk.wf⟩
+
+open ZygoVerif.RunInv in
+/-- the fresh interpreter satisfies the table invariant (non-vacuity of `WF`) -/
+theorem wf_initSt : WF initSt := by
+  refine ⟨fun id h2 hl => ?_, by decide, rfl, ?_, (fun a ha => by cases ha), (fun lz hlz => by cases hlz), (fun c hc => by cases hc)⟩
+  · have : initSt.fns.length = 2 := rfl
+    omega
+  · intro sc hsc p hp
+    simp only [initSt, List.mem_cons, List.mem_nil_iff, or_false] at hsc
+    subst hsc
+    simp only [List.mem_append, List.mem_cons, List.mem_nil_iff, or_false, List.mem_map] at hp
+    rcases hp with (rfl | rfl) | ⟨nm, _, rfl⟩ <;> rfl
+
 /-- **run_at_rest_partial**: `RunAtRest` for the empty text (`eval_empty_nil`). What the general
 statement needs on top of the theorems above: (1) the refinement "every `VM.exec` step is a
 `Bal.CStep`": proved per instruction (`exec_refines_partial`) except for the call instructions;
-(2) the calling contract for nested runs by induction on the call depth
-(`operand_returns_one_value` and `generated_function_balanced` are the per-function halves: a
-helper / a generated function run on top of ANY caller stack returns with exactly one value and
-the caller's depths); (3) `GenBalanced` for all forms: `gen_balanced`. Until (2) is done the
-statement is held, on the real interpreter, by the depth oracle of channel `rest` on every run. -/
+(2) the calling contract for nested runs: `calling_contract` (all thirteen functions of the mutual
+block, by induction on the fuel); (3) `GenBalanced` for all forms: `gen_balanced`. What is still
+missing is the LAST step: the top-level text itself runs as code APPENDED to `mainfunc` (it starts
+at pc = old length, not 0), so the bottom activation of the outermost `runLoop` needs the
+annotation of `program_verified` shifted by the old length (relative jumps and `break` offsets
+shift; it needs "no `goto` in code compiled with the tail flag off" and "the loop ids of the old
+code are old"), a `Base` without return address, and `WF` + that fact as invariants of `runText`.
+`RunAtRest` quantifies over every state at rest; without the table invariant it is not provable.
+Until then the statement is held, on the real interpreter, by the depth oracle of channel `rest`. -/
 theorem run_at_rest_partial (s : St) (fuel : Nat) (h : AtRest s) :
     ∀ s' v tr d alive, runText (fuel + 2) [] s = (Outcome.done "ok" v tr d, s', alive) → AtRest s' := by
   intro s' v tr d alive hr
